@@ -724,3 +724,40 @@ def rule_h(res: Results, idx: Index) -> None:
             else:
                 res.ok("R-C08h", site, key, f"no refresh in the fold, but all {len(accepted)} admitted operators are re-derived by {', '.join(sorted(set(why)))}", fi.qualname)
     res.analysed["passthrough_chain_folds"] = n
+
+
+# ---------------------------------------------------------------------------------------------- R-C08i
+def rule_i(res: Results, idx: Index, rid: str = "R-C08i") -> None:
+    """The static shape JAX assigns to an equation's result is its output aval's shape.  A stamping helper that starts from
+    `_aval_shape_tuple(out_var)` and then replaces one of its dimensions by a quantity that does not come from the aval (a
+    loop-context "axis-0 override") declares a concrete extent JAX never computed: whenever the override is unrelated to
+    this equation the annotation (and the Expand inserted to match it) contradicts run time."""
+    res.rule(rid, "shape-stamping helpers do not replace a dimension of the output aval's shape by a non-aval quantity", floor=1)
+    n = 0
+    for m in idx.product_modules():
+        if "/plugins/" not in m.rel or ".examples" in m.name:
+            continue
+        for fi in m.funcs.values():
+            du = defuse(fi.node)
+            avals = [d for nm, ds in du.defs.items() for d in ds if d.value is not None and isinstance(d.value, ast.Call) and (call_name(d.value) or "").split(".")[-1] in ("_aval_shape_tuple",)]
+            if not avals:
+                continue
+            stamps = [c for c in walk_no_nested(fi.node) if isinstance(c, ast.Call) and (call_name(c) or "").split(".")[-1] == "_stamp_type_and_shape" and len(c.args) >= 2]
+            if not stamps:
+                continue
+            a = fi.node.args  # type: ignore[attr-defined]
+            params = {x.arg for x in a.posonlyargs + a.args + a.kwonlyargs}
+            for d0 in avals:
+                name = d0.name
+                n += 1
+                key = f"{m.rel}::{fi.qualname}::aval-shape::{name}"
+                site = f"{m.rel}:{d0.stmt.lineno}"
+                redefs = [d for d in du.defs.get(name, []) if d is not d0 and d.value is not None and isinstance(d.value, ast.BinOp) and name in names_in(d.value)]
+                foreign = [d for d in redefs if (names_in(d.value) - {name}) & params]
+                flows = any(name in (du.closure(names_in(c.args[1])) | names_in(c.args[1])) for c in stamps)
+                if foreign and flows:
+                    f0 = foreign[0]
+                    res.violation(rid, f"{m.rel}:{f0.stmt.lineno}", key, f"`{name}` starts as the output aval's shape and is then rebuilt as `{src(f0.value, 50)}` from the parameter {sorted((names_in(f0.value) - {name}) & params)}: the stamped shape is no longer the shape JAX computed for this equation (an axis-0 extent taken from loop context is declared on results it has nothing to do with)", fi.qualname)
+                else:
+                    res.ok(rid, site, key, "the stamped shape is the output aval's shape", fi.qualname)
+    res.analysed["aval_shape_stamping_helpers"] = n
